@@ -125,3 +125,31 @@ Definition check_c06b (c : c06b_case) : list string :=
       else []
   | _, _ => []
   end.
+
+(* ---- faults stage ----------------------------------------------------------
+   The real ImageLayoutToLayer over a filesystem wrapped by the harness: the
+   context is cancelled before the walk or while the k-th entry is produced, or
+   Stat/ReadDir/Readlink/Readnod/Open fails at a chosen path.  [f_out] is what
+   came back: None = an error, Some es = a layer, untarred by the harness.
+   Model = implementation on the outcome; and a layer handed out despite the
+   fault must be faithful to the tree (the verified validator). *)
+From Apko Require Export Model.TarFaults Generated.C06Tar.
+
+Record c06f_case := {
+  f_base : c06_case;             (* tree, passwd, group (o_walk / o_tar unused) *)
+  f_fault : fault;
+  f_out : option (list entry)
+}.
+
+Definition fault_kind (ft : fault) : string :=
+  match ft with FCancelBefore | FCancelAt _ => "cancel" | FErrEntry _ => "entry-error" | FErrRoot => "root-error" end.
+
+Definition check_c06f (c : c06f_case) : list string :=
+  let b := f_base c in
+  let m := walk_under_fault c06_ctx_err_returned c06_root_err_checked (case_env b) (c_tree b) (f_fault c) in
+  tag_if (negb (res_opt_eqb (list_eqb entry_eqb) (match m with Ok w => Ok (map tar_written w) | Err => Err | Panic => Panic | OutOfFuel => OutOfFuel end) (f_out c)))
+         "mismatch:fault-outcome" ++
+  match f_out c with
+  | Some es => tag_if (negb (faithfulb (c_users b) (c_groups b) (c_tree b) es)) ("viol:fault-swallowed/" ++ fault_kind (f_fault c))
+  | None => []
+  end.
